@@ -19,6 +19,21 @@ func main() {
 		cmdList(os.Args[2:])
 	case "check":
 		cmdCheck(os.Args[2:])
+	case "entries":
+		p, err := loadProgram("/repo", "verif")
+		if err != nil {
+			fmt.Println(err)
+			os.Exit(2)
+		}
+		db, err := loadSpecs("/repo", "verif")
+		if err != nil {
+			fmt.Println(err)
+			os.Exit(2)
+		}
+		es, _ := lockfastEntries(p, db)
+		for _, f := range es {
+			fmt.Println(originKey(f))
+		}
 	default:
 		fmt.Fprintln(os.Stderr, "unknown command", os.Args[1])
 		os.Exit(2)
